@@ -403,7 +403,7 @@ fn sched_hash(sw: &[(u64, u8)]) -> u64 {
 
 pub fn explore(pool: &Pool, prog: &SetProg, single: usize, double: usize, tapes: usize, tape_seed: u64) -> SetExplored {
     let mut ex = SetExplored { schedules: 0, failure: None, nontrivial: Vec::new(), classes: BTreeMap::new() };
-    let mut run_one = |ex: &mut SetExplored, sw: Vec<(u64, u8)>, random: Option<(u64, u32)>, trace: bool| -> Option<SetOut> {
+    let run_one = |ex: &mut SetExplored, sw: Vec<(u64, u8)>, random: Option<(u64, u32)>, trace: bool| -> Option<SetOut> {
         let out = exec(pool, prog, sw, random, trace);
         ex.schedules += 1;
         match judge(&out) {
